@@ -61,8 +61,8 @@ CHECKS["C15"] = ("verdict monitor by construction over projects generated from d
 CHECKS["C18"] = ("invariant monitor over the compiler's own DataLayout (verif hook, in-process) for random type expressions at pointer sizes 4 and 8, plus reference-model monitor over generated composite programs (full-width sentinels in every leaf, single-leaf overwrites, copies, by-value calls, optional some/none, canaries) run natively and on wasm",
  "Held on N type expressions x 2 pointer sizes (no overlapping or out-of-bounds field, offsets aligned, size multiple of alignment, array stride = element size, optional flag and result discriminant inside the value) and on M generated programs in which every leaf, after every overwrite/copy/call/optional wrap, read back exactly its sentinel while all other leaves and the canary locals stayed unchanged.",
  "results with aggregate payloads are rejected by the native back end today and therefore not in the dynamic part; optionals and 128/256-bit leaves run natively only", "DESIGN.md §3 C18")
-CHECKS["C16"] = ("reference-model monitor: math/big oracle over the exported C API of bigint.c (value and _ptr forms) behind a clang ASan+UBSan driver, limb-boundary-weighted operand workload",
- "Held on N calls: every exported ferret_{i,u}{128,256}_* operation (add, sub, mul, div, mod, comparisons, and/or/xor/not, shl/shr, pow, 64-bit conversions, decimal/hex/octal/binary text conversion) returned the math/big result reduced mod 2^N on every generated operand pair, in both calling forms, without a sanitizer report. Exploration over a 2^256 space: strength comes from boundary weighting (limb edges, sign boundaries, borrow/carry chains), not enumeration.",
+CHECKS["C16"] = ("reference-model monitor: math/big oracle over the exported C API of bigint.c (value and _ptr forms) behind a clang ASan+UBSan driver, limb-boundary-weighted operand workload; plus an end-to-end layer: generated Ferret programs over i128/u128/i256/u256 (operators, comparisons, ** , casts from/to every narrower integer type and between the large types, compound assignment, ++/--, by-value calls, struct fields, fixed-array elements, loops, branches) compiled by the real compiler, linked with the real runtime, run natively and compared value by value with math/big",
+ "Held on N calls: every exported ferret_{i,u}{128,256}_* operation (add, sub, mul, div, mod, comparisons, and/or/xor/not, shl/shr, pow, 64-bit conversions, decimal/hex/octal/binary text conversion) returned the math/big result reduced mod 2^N on every generated operand pair, in both calling forms, without a sanitizer report. Exploration over a 2^256 space: strength comes from boundary weighting (limb edges, sign boundaries, borrow/carry chains), not enumeration. End-to-end: every value printed by M generated large-integer programs equalled the math/big value (covers the lowering in emitLargeBinary/Compare/Cast/Const).",
  "trusts math/big and the hex transport of the driver; division by zero, negative shifts/exponents are out of the property's domain", "DESIGN.md §3 C16")
 CHECKS["C17"] = ("reference-model monitor: Go map/slice model over operation histories run through the real map.c/array.c/optional.c behind an ASan+UBSan driver (thorough: also valgrind memcheck on an uninstrumented build)",
  "Held on N histories: every return value of the runtime map/array/optional API matched the abstract model (latest value per key, size = distinct keys, iteration visits each entry exactly once, out-of-range array requests refused) across resize thresholds, for i32/i64/string/byte-blob keys, with exact-size heap buffers so over-reads/over-writes and leaks are visible to the sanitizers.",
